@@ -614,6 +614,45 @@ def r_iface(ctx):
                     undefined.add(n.attr)
         ctx.ob("R-IFACE", "%s::attributes initialised" % be.name, not undefined,
                "every self attribute read is initialised by a constructor" if not undefined else "reads uninitialised attribute(s) %s" % sorted(undefined), be.module.rel)
+    # siblings agree on which attributes of the base class each method of the interface (re)writes: a back-end that refreshes, say, the stored
+    # multipliers in `solve` while its sibling does not makes what the problem object reads back depend on the back-end
+    base_attrs = set()
+    ini = base.methods.get("__init__")
+    if ini:
+        for s in flow.stmts_of(ini, ast.Assign):
+            for t in s.targets:
+                if isinstance(t, ast.Attribute) and dotted(t.value) == "self":
+                    base_attrs.add(t.attr)
+
+    # ... restricted to the result slots: attributes that the concrete methods of the base class themselves read or write (the accessors through
+    # which the problem object gets solutions and multipliers); back-end-specific handles initialised by the base constructor are not compared
+    shared = set()
+    for nm0, f0 in base.methods.items():
+        if nm0 == "__init__" or nm0 in abstract:
+            continue
+        for n0 in ast.walk(f0):
+            if isinstance(n0, ast.Attribute) and dotted(n0.value) == "self" and n0.attr in base_attrs:
+                shared.add(n0.attr)
+    base_attrs &= shared
+
+    def written(f):
+        out = set()
+        for s in flow.stmts_of(f):
+            tg = s.targets if isinstance(s, ast.Assign) else ([s.target] if isinstance(s, (ast.AugAssign, ast.AnnAssign)) else [])
+            for t in tg:
+                for t1 in (t.elts if isinstance(t, (ast.Tuple, ast.List)) else [t]):
+                    if isinstance(t1, ast.Attribute) and dotted(t1.value) == "self" and t1.attr in base_attrs:
+                        out.add(t1.attr)
+        return out
+    if len(bes) == 2:
+        for meth in sorted(set(bes[0].methods) & set(bes[1].methods)):
+            if meth == "__init__":
+                continue
+            w0, w1 = written(bes[0].methods[meth]), written(bes[1].methods[meth])
+            ctx.ob("R-IFACE", "%s / %s::%s writes the same base-class attributes" % (bes[0].name, bes[1].name, meth), w0 == w1,
+                   "both write %s" % (sorted(w0) or "none") if w0 == w1 else
+                   "%s.%s writes %s, %s.%s writes %s: what the problem object reads back from the wrapper (e.g. the multipliers captured after the first "
+                   "solve) depends on the back-end" % (bes[0].name, meth, sorted(w0), bes[1].name, meth, sorted(w1)), bes[1].module.rel)
     ctx.count("wrapper interface methods", len(called))
 
 
@@ -926,8 +965,29 @@ def r_mainvars(ctx):
         if isinstance(s.value, ast.Call) and call_name(s.value) == "Variable" and s.value.args:
             shapes[dotted(s.targets[0])] = (src(s.value.args[0]).replace(" ", ""), any(k.arg == "symmetric" and is_const(k.value, True) for k in s.value.keywords))
     ok = shapes.get("self.F", ("",))[0] in ("(Expression.counter,)", "Expression.counter") and shapes.get("self.G") == ("(Point.counter,Point.counter)", True)
+    why = "main variables are %s" % shapes
+    # the same method unrolled: F and G are variables of the sizes of the two registries, and the one solver constraint contributed is `G >> 0`
+    from ..miniint import IndexInterp, is_token
+    resolve_names(repo)
+    try:
+        itm = IndexInterp({"self." + SOLVER_CONS: [], "Point.counter": 3, "Expression.counter": 4, "self.verbose": 0})
+        itm.run(fn.body)
+        F, G, sc = itm.env.get("self.F"), itm.env.get("self.G"), itm.env.get("self." + SOLVER_CONS)
+        isvar = lambda v: is_token(v) and v[0] == "call" and v[1].endswith("Variable") and len(v[2]) >= 1
+        kw = lambda v: dict(v[3])
+        if not (isvar(F) and F[2][0] in ((4,), 4) and not any(kw(F).get(k0) for k0 in ("nonneg", "nonpos", "boolean", "integer", "pos", "neg"))):
+            ok, why = False, "the function values are `%r`: expected a free variable with one entry per leaf expression" % (F,)
+        elif not (isvar(G) and G[2][0] == (3, 3) and (kw(G).get("symmetric") is True or kw(G).get("PSD") is True)
+                  and not any(kw(G).get(k0) for k0 in ("nonneg", "nonpos", "boolean", "integer", "diag", "pos", "neg"))):
+            ok, why = False, "the Gram matrix is `%r`: expected a symmetric variable with one row per leaf point and no other attribute" % (G,)
+        elif not (isinstance(sc, list) and len(sc) == 1 and (sc[0] == ("op", "RShift", G, 0) or sc[0] == ("op", "LShift", 0, G))):
+            ok, why = False, "the solver constraints contributed are `%r`: expected exactly `G >> 0` (the residual is read as its multiplier)" % (sc,)
+        else:
+            ok = True
+    except AnalysisError:
+        pass        # outside the interpreter's fragment: the shape clause above decides
     ctx.ob("R-MAINVARS", "CvxpyWrapper.set_main_variables", ok,
-           "F has one entry per leaf expression, G is a symmetric matrix with one row per leaf point" if ok else "main variables are %s" % shapes, loc(fn, fn))
+           "F has one entry per leaf expression, G is a symmetric matrix with one row per leaf point, constrained by `G >> 0` only" if ok else why, loc(fn, fn))
     sv = be.methods["solve"]
     vals = {dotted(s.targets[0]): src(s.value) for s in flow.stmts_of(sv, ast.Assign)}
     ok = vals.get("self.optimal_G") == "self.G.value" and vals.get("self.optimal_F") == "self.F.value"
@@ -1115,7 +1175,12 @@ def r_mosekrow(ctx):
     # the row data (<A, G> with weight 1 on variable 0, a.F, bound) are decided on the unrolled task programs
     from . import mosekprog
     mosekprog.r_mosek_rows(ctx)
-    # variables
+    # variables: as a program (set_main_variables then generate_problem on one task); the shape clauses below decide when it is not interpretable
+    try:
+        mosekprog.r_mosek_vars(ctx)
+        return
+    except AnalysisError as ex:
+        ctx.notes.append("R-MOSEKROW variables: %s -- shape clauses applied instead" % ex)
     fn = mb.methods["set_main_variables"]
     gp = mb.methods["generate_problem"]
     av = [c for c in ast.walk(fn) if isinstance(c, ast.Call) and call_name(c) == "appendvars" and c.args]
